@@ -1055,6 +1055,56 @@ impl Ctx {
                 self.race(c.parse().unwrap(), nw.parse().unwrap(), rounds.parse().unwrap());
                 return;
             }
+            ["deadstart", k] => {
+                // the data directory is what a FIRST start that died after K of its six steps left behind
+                // (Setup.dead_start d_none K: 0 nothing, 1 the directory, 2 an empty database file, 3 the
+                // file with its WAL header, 4 + table clients, 5 + table versions, 6 complete), produced with
+                // the statements of the pinned release; then the storage is opened on it by the code under
+                // test.  SQLite only; to be used before the case stores anything.
+                let k: usize = k.parse().unwrap();
+                if self.backend == Backend::Sqlite {
+                    self.server = None;
+                    self.store = None;
+                    let d = self.data_dir();
+                    let db = d.join("taskchampion-sync-server.sqlite3");
+                    for f in ["taskchampion-sync-server.sqlite3", "taskchampion-sync-server.sqlite3-wal", "taskchampion-sync-server.sqlite3-shm"] {
+                        let _ = std::fs::remove_file(d.join(f));
+                    }
+                    if k == 0 {
+                        let _ = std::fs::remove_dir_all(&d);
+                    } else {
+                        std::fs::create_dir_all(&d).expect("deadstart dir");
+                    }
+                    if k == 2 {
+                        std::fs::write(&db, b"").expect("deadstart file");
+                    }
+                    if k >= 3 {
+                        let con = rusqlite::Connection::open(&db).expect("deadstart open");
+                        con.query_row("PRAGMA journal_mode=WAL", [], |_r| Ok(())).expect("deadstart wal");
+                        let qs = [
+                            "CREATE TABLE IF NOT EXISTS clients (
+                    client_id STRING PRIMARY KEY,
+                    latest_version_id STRING,
+                    snapshot_version_id STRING,
+                    versions_since_snapshot INTEGER,
+                    snapshot_timestamp INTEGER,
+                    snapshot BLOB);",
+                            "CREATE TABLE IF NOT EXISTS versions (version_id STRING PRIMARY KEY, client_id STRING, parent_version_id STRING, history_segment BLOB);",
+                            "CREATE INDEX IF NOT EXISTS versions_by_parent ON versions (parent_version_id);",
+                        ];
+                        for q in qs.iter().take(k - 3) {
+                            con.execute(q, []).expect("deadstart schema");
+                        }
+                    }
+                    let r = std::panic::catch_unwind(std::panic::AssertUnwindSafe(|| self.open(false)));
+                    if r.is_err() {
+                        self.emit(format!("mark deadstart {k}"), "OPEN-FAILED".into());
+                        return;
+                    }
+                }
+                self.emit(format!("mark deadstart {k}"), "mark".into());
+                return;
+            }
             ["fixture", name] => {
                 // start from a COPY of a data directory written by the pinned release (fixtures/c19/<name>):
                 // the harness takes over the id bookkeeping recorded with it and replays the recorded
@@ -1079,6 +1129,8 @@ impl Ctx {
                             self.out.push(line.to_string());
                         }
                     }
+                    // (everything above this line is the pinned release's own record of what it did)
+                    self.emit(format!("mark fixture-loaded {name}"), "mark".into());
                 }
                 return;
             }
